@@ -43,7 +43,7 @@ def run(args):
 def audit_unit(u, workers=6):
     """[(label, verdict)] for the labelled assertions spliced into the bodies of unit `u`"""
     jobs = []
-    out = f"/tmp/audit_{u}.rs"
+    out = f"/tmp/audit_{os.getpid()}_{u}.rs"
     r = subprocess.run([VX, "extract", "--repo", os.environ.get("VERIF_REPO", "/repo"), "--unit", os.path.join(ROOT, "units", u + ".vrs"), "--out", out, "--log", out + ".json"], capture_output=True, text=True)
     if r.returncode != 0:
         return [("<extract>", "UNREACHABLE-OR-UNDECIDED")]
@@ -66,7 +66,7 @@ def main():
     units = sys.argv[1:] or sorted(f[:-4] for f in os.listdir(os.path.join(ROOT, "units")) if f.endswith(".vrs"))
     jobs = []
     for u in units:
-        out = f"/tmp/audit_{u}.rs"
+        out = f"/tmp/audit_{os.getpid()}_{u}.rs"
         r = subprocess.run([VX, "extract", "--repo", os.environ.get("VERIF_REPO", "/repo"), "--unit", os.path.join(ROOT, "units", u + ".vrs"), "--out", out, "--log", out + ".json"], capture_output=True, text=True)
         if r.returncode != 0:
             print(u, "extract failed", r.stdout[-200:])
